@@ -14,8 +14,10 @@ from .values import *
 class N:
     """spec-level number: wraps a Val term; arithmetic is CPython's on (int | real | +-inf | nan), comparisons extended-real"""
 
-    def __init__(self, t):
+    def __init__(self, t, fin=False):
+        self.fin = fin  # statically known finite int/float: arithmetic without case analysis
         if isinstance(t, N):
+            self.fin = fin or t.fin
             t = t.t
         elif hasattr(t, "t") and z3.is_expr(getattr(t, "t")) and not isinstance(t, SV):
             t = t.t
@@ -23,23 +25,34 @@ class N:
             t = Z.mk_bool(t)
         elif isinstance(t, int):
             t = Z.mk_int(t)
+            self.fin = True
         elif isinstance(t, float):
+            self.fin = t not in (float("inf"), float("-inf")) and t == t
             t = Z.POS_INF if t == float("inf") else Z.NEG_INF if t == float("-inf") else Z.mk_flt(repr(t))
         elif isinstance(t, SV):
             t = t.t
         elif z3.is_expr(t) and t.sort() != Z.Val:
+            self.fin = True
             if t.sort() == z3.IntSort():
                 t = Z.mk_int(t)
             elif t.sort() == z3.RealSort():
                 t = Z.mk_flt(t)
             else:
                 raise TypeError("cannot make N from %s" % t.sort())
+        if z3.is_expr(t) and z3.is_app(t) and t.decl().name() == "numv":
+            self.fin = True
         self.t = t
+
+    def _o(self, o):
+        return o if isinstance(o, N) else N(o)
 
     # components
     @property
     def r(self):
-        return Z.rval(self.t)
+        return Z.Val.r(self.t) if self.fin else Z.rval(self.t)
+
+    def _both_fin(self, o):
+        return self.fin and isinstance(o, N) and o.fin
 
     @property
     def finite(self):
@@ -62,17 +75,26 @@ class N:
         return Z.is_nanv(self.t)
 
     def __add__(self, o):
+        o = self._o(o)
+        if self._both_fin(o):
+            return N(Z.Val.numv(z3.And(Z.Val.isint(self.t), Z.Val.isint(o.t)), self.r + o.r), fin=True)
         return N(Z.num_add(self.t, N(o).t))
 
     __radd__ = __add__
 
     def __sub__(self, o):
+        o = self._o(o)
+        if self._both_fin(o):
+            return N(Z.Val.numv(z3.And(Z.Val.isint(self.t), Z.Val.isint(o.t)), self.r - o.r), fin=True)
         return N(Z.num_sub(self.t, N(o).t))
 
     def __rsub__(self, o):
         return N(Z.num_sub(N(o).t, self.t))
 
     def __mul__(self, o):
+        o = self._o(o)
+        if self._both_fin(o):
+            return N(Z.Val.numv(z3.And(Z.Val.isint(self.t), Z.Val.isint(o.t)), self.r * o.r), fin=True)
         return N(Z.num_mul(self.t, N(o).t))
 
     __rmul__ = __mul__
@@ -84,24 +106,32 @@ class N:
         return N(Z.num_neg(self.t))
 
     def __abs__(self):
+        if self.fin:
+            return N(Z.Val.numv(Z.Val.isint(self.t), z3.If(self.r < 0, -self.r, self.r)), fin=True)
         return N(Z.num_abs(self.t))
 
+    # comparisons: plain real comparisons when both sides are finite by their shapes, extended-real otherwise
     def __lt__(self, o):
-        return Z.x_lt(self.t, N(o).t)
+        o = self._o(o)
+        return self.r < o.r if self._both_fin(o) else Z.x_lt(self.t, o.t)
 
     def __le__(self, o):
-        return Z.x_le(self.t, N(o).t)
+        o = self._o(o)
+        return self.r <= o.r if self._both_fin(o) else Z.x_le(self.t, o.t)
 
     def __gt__(self, o):
-        return Z.x_lt(N(o).t, self.t)
+        o = self._o(o)
+        return self.r > o.r if self._both_fin(o) else Z.x_lt(o.t, self.t)
 
     def __ge__(self, o):
-        return Z.x_le(N(o).t, self.t)
+        o = self._o(o)
+        return self.r >= o.r if self._both_fin(o) else Z.x_le(o.t, self.t)
 
     def __eq__(self, o):
         if o is None:
             return Z.is_none(self.t)
-        return Z.x_eq(self.t, N(o).t)
+        o = self._o(o)
+        return self.r == o.r if self._both_fin(o) else Z.x_eq(self.t, o.t)
 
     def __ne__(self, o):
         return z3.Not(self.__eq__(o))
@@ -304,7 +334,7 @@ class Spec:
 
     def view_term(self, t, ty, heap):
         if isinstance(ty, (TNum,)):
-            return N(t)
+            return N(t, fin=ty.static_finite)
         if isinstance(ty, TSeq):
             return SeqView(self, t, ty, heap)
         if isinstance(ty, TTuple):
@@ -331,6 +361,12 @@ class Spec:
 
     def unchanged(self, obj, *fields):
         return z3.And(*[z3.Select(self.ctx.rd(self.new_heap, f), obj.id) == z3.Select(self.ctx.rd(self.old_heap, f), obj.id) for f in fields])
+
+    def any_index(self, name="j_any"):
+        """a fresh arbitrary index: a clause stated for it holds for every index (the constant is unconstrained)"""
+        from .engine import fresh
+
+        return fresh(name, z3.IntSort())
 
     def forall(self, names, body):
         vs = [z3.Int(n) for n in names.split()]
